@@ -58,6 +58,7 @@ def check_execution(part, ex, cache):
     flag = meta.get("fully_connected", False)
     try:
         vset = None if vis is None else frozenset(_cells(vis))
+        vdup = 0 if vis is None or isinstance(vis, (set, frozenset)) else len(_cells(vis)) - len(vset)
         start_t = None if start is None else tuple(int(v) for v in start)
     except Exception as e:  # noqa: BLE001 - metadata of an unusable form
         part.seen((gen, ex.shape, kk, conn.tobytes(), "unreadable"), nontrivial=R * C >= 2)
@@ -81,6 +82,9 @@ def check_execution(part, ex, cache):
             part.fail(f"C12:start_coord:{gen}", f"{tag}: visited_cells recorded but start_coord is {start_t}", inp, repr(start)[:100])
         else:
             reach = S.component(conn, start_t)
+            if vdup:
+                # "exactly the cells reachable": a list that names a cell twice is not that set (endpoint sampling draws distinct INDICES from it)
+                part.fail(f"C12:visited_cells-repeated:{gen}", f"{tag}: visited_cells lists {vdup} cell(s) more than once", inp, sorted(_cells(vis)))
             if set(vset) != reach:
                 part.fail(f"C12:visited_cells:{gen}", f"{tag}: visited_cells != cells reachable from start {start_t}: recorded-only {sorted(set(vset) - reach)[:6]}, reachable-only {sorted(reach - set(vset))[:6]}", inp, sorted(vset))
     # ---- the flag, when set, is true
